@@ -185,6 +185,12 @@ impl<'a, SE: brush_core::ShellExtensions> Highlighter<'a, SE> {
                     .unwrap_or(line.len())
             };
 
+            // The tokenizer yields the tokens of a here-document (body, end tag) right after
+            // the tag that introduces it, ahead of the rest of that line; spans are built in
+            // source order.
+            let mut tokens = tokens;
+            tokens.sort_by_key(|token| token.location().start.index);
+
             for token in tokens {
                 match token {
                     brush_parser::Token::Operator(_op, token_location) => {
